@@ -1,6 +1,7 @@
 package main
 
 import (
+	"encoding/json"
 	"fmt"
 	"math"
 	"sort"
@@ -216,6 +217,16 @@ func (a *acctTarget) claimRevoked(present bool, sub string, iat int64) bool {
 	uc.Subject = sub
 	uc.IssuedAt = iat
 	plain := a.ac.IsClaimRevoked(uc)
+	// a claim that ARRIVES AS A TOKEN without an issue time (the member absent, 0 or null; a not-before or expiry time
+	// may be there) or without a subject is such a claim too
+	if iat == 0 || sub == "" {
+		for _, d := range tokenBorneUsers(sub, iat) {
+			if !a.ac.IsClaimRevoked(d) {
+				c09Dressed = fmt.Sprintf("a user token decoded without %s (iat=%d sub=%q nbf=%d as decoded) is not reported as revoked", map[bool]string{true: "an issue time", false: "a subject"}[iat == 0], d.IssuedAt, d.Subject, d.NotBefore)
+				return !plain
+			}
+		}
+	}
 	// nothing else the claim holds matters: the same question with every other key of the histories (and the
 	// wildcard name) in the issuer, issuer-account, name, audience and id fields
 	for _, other := range []string{"a", "b", "*"} {
@@ -583,4 +594,51 @@ func runC09(c *Ctx) {
 	w.flush()
 	c.sum.DistinctNontriv = len(distinct)
 	c.sum.Rule = fmt.Sprintf("histories mixing RevokeAt (past and future times) with the as-of-now entry points on account and export, the clock bracketed; all histories over revoke{a,b,*}x{1,2,3}, clear{a,b,*}, compact up to length %d (exhaustive), each on AccountClaims and on an Export, followed by 10 IsRevoked and 6 IsClaimRevoked queries, map contents and MaybeCompact results; plus random histories of length 5-40 with encode/decode steps; non-trivial = distinct observation (final map, deleted sets, answers) with a non-empty map or more than one operation", maxLen)
+}
+
+// tokenBorneUsers: user claims decoded from hand-written version-2 tokens that lack the issue time (iat == 0) or the
+// subject (sub == ""): the member absent, zero / empty, or null, with and without not-before and expiry times. Decoded
+// once per (sub, iat) and kept.
+var tokenBorneCache = map[string][]*jwt.UserClaims{}
+var tokenBorneSigner *signer
+
+func tokenBorneUsers(sub string, iat int64) []*jwt.UserClaims {
+	key := fmt.Sprint(sub, "|", iat)
+	if l, ok := tokenBorneCache[key]; ok {
+		return l
+	}
+	if tokenBorneSigner == nil {
+		tokenBorneSigner = newSigner("account")
+	}
+	var out []*jwt.UserClaims
+	for _, iatForm := range []string{"absent", "zero", "null"} {
+		for _, nbf := range []int64{0, 1, 2, 3, 5, 4102444800} {
+			m := map[string]interface{}{"iss": tokenBorneSigner.pub, "jti": "x", "name": "token-borne", "nats": map[string]interface{}{"type": "user", "version": 2}}
+			if sub != "" {
+				m["sub"] = sub
+			} else if iatForm == "null" {
+				m["sub"] = nil
+			} else if iatForm == "zero" {
+				m["sub"] = ""
+			}
+			if iat != 0 {
+				m["iat"] = iat
+			} else if iatForm == "zero" {
+				m["iat"] = 0
+			} else if iatForm == "null" {
+				m["iat"] = nil
+			}
+			if nbf != 0 {
+				m["nbf"] = nbf
+				m["exp"] = nbf + 1000
+			}
+			pj, _ := json.Marshal(m)
+			ft := forge(hdrV2, string(pj), "v2", tokenBorneSigner)
+			if d, err := jwt.DecodeUserClaims(ft.Token); err == nil && d != nil {
+				out = append(out, d)
+			}
+		}
+	}
+	tokenBorneCache[key] = out
+	return out
 }
